@@ -343,6 +343,7 @@ func C19(rep *ev.Reporter, tier string) {
 	}
 	// ---- the same laws through GRL conditions over typed fact fields ----
 	grlN := c19GRL(rep, tier, report)
+	grlN += c19Forms(rep, report)
 	// times and strings through GRL conditions (F.T ? G.T, F.S ? G.S)
 	{
 		ops := []string{"<", "==", ">", "<=", ">=", "!="}
@@ -523,6 +524,111 @@ func c19GRL(rep *ev.Reporter, tier string, report func(sig, what string, replay 
 			}
 			if law := c19Laws(o, m, cmp, true); law != "" {
 				report("C19:grl:"+strings.SplitN(law, " ", 2)[0]+":"+j.lf+"x"+j.rf, fmt.Sprintf("%s: %s", id, law), map[string]interface{}{"case": id})
+			}
+		}
+	})
+	return n
+}
+
+// c19Forms: the outcome of a comparison does not depend on the FORM of an operand - a field, the same number
+// written as a literal, a bracketed or computed expression, a value behind a pointer - nor on which side the
+// literal stands. Every ordered pair of 10 signed 64-bit values incl. the ends of the range and pairs whose
+// difference does not fit 64 bits x 5 forms of either operand x 6 operators, through real GRL conditions.
+// Oracle: Go's comparison of the two values.
+func c19Forms(rep *ev.Reporter, report func(sig, what string, replay map[string]interface{})) int64 {
+	vals := []int64{0, 1, -2, 7, math.MaxInt64, -math.MaxInt64, math.MinInt64, 5000000000000000000, -5000000000000000000, math.MaxInt32}
+	// form(side, value) -> GRL text, or "" when the value cannot be written that way
+	forms := []struct {
+		name string
+		text func(obj string, v int64) string
+	}{
+		{"field", func(obj string, v int64) string { return obj + ".I" }},
+		{"literal", func(obj string, v int64) string {
+			if v == math.MinInt64 {
+				return "" // not writable as a literal
+			}
+			return fmt.Sprint(v)
+		}},
+		{"bracketed-field", func(obj string, v int64) string { return "(" + obj + ".I)" }},
+		{"field-plus-zero", func(obj string, v int64) string { return obj + ".I + 0" }},
+		{"behind-pointer", func(obj string, v int64) string { return obj + ".PI" }},
+	}
+	ops := []string{"<", "==", ">", "<=", ">=", "!="}
+	type job struct{ a, b int64 }
+	var jobs []job
+	for _, a := range vals {
+		for _, b := range vals {
+			jobs = append(jobs, job{a, b})
+		}
+	}
+	var n int64
+	ParallelEach(len(jobs), func(i int) {
+		j := jobs[i]
+		var rules []*grl.Rule
+		want := map[string]bool{}
+		label := map[string]string{}
+		for li, lf := range forms {
+			for ri, rf := range forms {
+				lt, rt := lf.text("F", j.a), rf.text("G", j.b)
+				if lt == "" || rt == "" {
+					continue
+				}
+				for oi, op := range ops {
+					name := fmt.Sprintf("r%d_%d_%d", li, ri, oi)
+					cond := lt + " " + op + " " + rt
+					rules = append(rules, grl.R(name, nil, cond, "F.I2 = 1"))
+					label[name] = lf.name + " " + op + " " + rf.name + ": " + cond
+					switch op {
+					case "<":
+						want[name] = j.a < j.b
+					case "==":
+						want[name] = j.a == j.b
+					case ">":
+						want[name] = j.a > j.b
+					case "<=":
+						want[name] = j.a <= j.b
+					case ">=":
+						want[name] = j.a >= j.b
+					default:
+						want[name] = j.a != j.b
+					}
+				}
+			}
+		}
+		id := fmt.Sprintf("grl/forms/%d/%d", j.a, j.b)
+		if rep.ReplayFilter != "" && rep.ReplayFilter != id {
+			return
+		}
+		b, err := hx.Build(hx.NewProgram(rules, grl.Style{}))
+		if err != nil {
+			report("harness:build-failed:c19forms", id+": "+err.Error(), nil)
+			return
+		}
+		kb, err := b.Instance()
+		if err != nil {
+			report("C19:instance-failed", err.Error(), nil)
+			return
+		}
+		w := ref.NewWorld()
+		f, g := facts.New(), facts.New()
+		f.I, g.I = j.a, j.b
+		pa, pb := j.a, j.b
+		f.PI, g.PI = &pa, &pb
+		w.Objs["F"], w.Objs["G"] = f, g
+		res := hx.Fetch(kb, w, true, 0)
+		atomic.AddInt64(&n, int64(len(rules)))
+		if res.Err != nil || res.Panic != nil {
+			report("C19:grl-error:operand-forms", fmt.Sprintf("%s: %v %v", id, res.Err, res.Panic), map[string]interface{}{"case": id})
+			return
+		}
+		got := map[string]bool{}
+		for _, nme := range res.Names {
+			got[nme] = true
+		}
+		for _, r := range rules {
+			if got[r.Name] != want[r.Name] {
+				p := strings.SplitN(label[r.Name], ":", 2)
+				report("C19:grl:outcome-depends-on-operand-form:"+p[0], fmt.Sprintf("%s (F.I = %d, G.I = %d):%s evaluates to %v, the values compare %v", id, j.a, j.b, p[1], got[r.Name], want[r.Name]), map[string]interface{}{"case": id})
 			}
 		}
 	})
